@@ -30,6 +30,12 @@ func (mp *ConsensusMessagesFilter) HandleConsensusMessage(message interfaces.Con
 		return errors.Errorf("Out of committee - ignoring message %s H=%d V=%d", message.MessageType(), message.BlockHeight(), message.View())
 	}
 
+	// the message type is part of the signed header: a header signed as one message type must not be
+	// accepted inside the content of another type (replay of a PREPARE signature as a COMMIT, etc.)
+	if err := validateSignedMessageTypes(message); err != nil {
+		return err
+	}
+
 	switch message := message.(type) {
 	case *interfaces.PreprepareMessage:
 		mp.handler.HandlePrePrepare(message)
@@ -59,5 +65,27 @@ func (mp *ConsensusMessagesFilter) HandleConsensusMessage(message interfaces.Con
 		panic(fmt.Sprintf("unknown message type: %T", message))
 	}
 
+	return nil
+}
+
+func validateSignedMessageTypes(message interfaces.ConsensusMessage) error {
+	var expected protocol.MessageType
+	switch message.(type) {
+	case *interfaces.PreprepareMessage:
+		expected = protocol.LEAN_HELIX_PREPREPARE
+	case *interfaces.PrepareMessage:
+		expected = protocol.LEAN_HELIX_PREPARE
+	case *interfaces.CommitMessage:
+		expected = protocol.LEAN_HELIX_COMMIT
+	case *interfaces.ViewChangeMessage:
+		expected = protocol.LEAN_HELIX_VIEW_CHANGE
+	case *interfaces.NewViewMessage:
+		expected = protocol.LEAN_HELIX_NEW_VIEW
+	default:
+		return nil
+	}
+	if message.MessageType() != expected {
+		return errors.Errorf("signed header has message type %s inside a %s message", message.MessageType(), expected)
+	}
 	return nil
 }
